@@ -228,21 +228,53 @@ def setup():
 _loop: Optional[asyncio.AbstractEventLoop] = None
 
 
+class ExecutionTimeout(BaseException):
+    """one execution of the implementation did not terminate within the per-execution horizon"""
+
+
+_timeout_s = [20.0]
+
+
+def _on_alarm(signum, frame):
+    raise ExecutionTimeout(f"no result after {_timeout_s[0]} s")
+
+
 def run(coro, env: Optional[Env] = None):
-    """run a coroutine to completion on the process-wide stock event loop (used where nothing ever yields)"""
+    """run a coroutine to completion on the process-wide stock event loop (used where nothing ever yields).
+    Every execution has a horizon (SIGALRM): an implementation that loops forever surfaces as ExecutionTimeout, which the
+    checks see as an unexpected exception type.  After the first timeout the horizon of this process drops to 1 s."""
     global _loop
     if _loop is None or _loop.is_closed():
         _loop = asyncio.new_event_loop()
-    if env is None:
-        return _loop.run_until_complete(coro)
-    ctx = contextvars.copy_context()
+    import signal
+    import threading
 
-    def start():
-        ENV.set(env)
-        return _loop.create_task(coro)
+    use_alarm = threading.current_thread() is threading.main_thread()
+    if use_alarm:
+        signal.signal(signal.SIGALRM, _on_alarm)
+        signal.setitimer(signal.ITIMER_REAL, _timeout_s[0])
+    try:
+        if env is None:
+            return _loop.run_until_complete(coro)
+        ctx = contextvars.copy_context()
 
-    task = ctx.run(start)
-    return _loop.run_until_complete(task)
+        def start():
+            ENV.set(env)
+            return _loop.create_task(coro)
+
+        task = ctx.run(start)
+        return _loop.run_until_complete(task)
+    except ExecutionTimeout:
+        _timeout_s[0] = 1.0
+        try:
+            _loop.close()
+        except BaseException:  # pylint:disable=broad-except
+            pass
+        _loop = None
+        raise
+    finally:
+        if use_alarm:
+            signal.setitimer(signal.ITIMER_REAL, 0)
 
 
 # ---------------------------------------------------------------------------------------------------------------------
